@@ -779,6 +779,9 @@ func (g *G) forOver(t Ty, depth int, body func(v string) ast.Node) (ast.Node, bo
 		}
 		iters = append(iters, it)
 	}
+	// loop variables are visible inside the loop only: after a loop that ran zero times a fresh loop variable
+	// is unbound (or keeps whatever an earlier top-level block left under that name), whatever its type here
+	m := g.mark()
 	for i := 0; i < n; i++ {
 		v := g.FreshName()
 		for _, u := range vars {
@@ -804,7 +807,6 @@ func (g *G) forOver(t Ty, depth int, body func(v string) ast.Node) (ast.Node, bo
 	if s != nil {
 		s.hasFor = true
 	}
-	m := g.mark()
 	b := body(vars[0])
 	g.restore(m)
 	if s != nil {
